@@ -12,6 +12,13 @@ from .symx import lift, Sym, Inconclusive
 from .laws import Prover, LawError, split_steps, step_mass
 
 
+REPLAY = [None]
+
+
+class ReplayMismatch(Exception):
+    pass
+
+
 def install_weighted_choice_stub(sim):
     """replace the rejection loop of _ListDict_.choose_random (weighted case) by an engine choice that
     logs items and weights; that the real loop selects with probability weight/sum is C16's claim.
@@ -28,6 +35,13 @@ def install_weighted_choice_stub(sim):
         if not items:
             raise IndexError('Cannot choose from an empty sequence')
         weights = [self.weight[it] for it in items]
+        if REPLAY[0] is not None:
+            # second call of a repeat-call pair: the same candidate must be offered and is picked again
+            e = REPLAY[0]._next('wchoice')
+            if [str(x) for x in items] != [str(x) for x in e[1]]:
+                raise ReplayMismatch('weighted choice over different candidates: %s vs %s' % (items, e[1]))
+            REPLAY[0].wchoice_weights.append((weights, e[2]))
+            return items[e[3]]
         i = eng.choose(len(items), 'wchoice')
         w = weights[i]
         if eng.mode == 'sym':
